@@ -378,7 +378,7 @@ static int stressMain(unsigned long long seed, int jobs, int opsPerThread) {
         const int threads = std::max(2, std::min(8, lanes + (int)top.below(4) - 1));  // threads share lanes or not
         const int viaSetNumLanes = (int)top.below(2);
         const int initial = (int)top.below(3);  // symbol tables: number of initial symbols (capacity = that number: growth at once)
-        const int pool = std::vector<int>{4, 12, 40, 300, 1500}[top.below(5)];
+        const int pool = std::vector<int>{4, 12, 40, 150, 600}[top.below(5)];
         const int mode = (int)top.below(3);  // sym: 0 findOrInsert, 1 encode, 2 mixed
         const int phases = 1 + (int)top.below(3);
         gPermille.store(std::vector<unsigned>{0, 20, 200}[top.below(3)]);
